@@ -11,7 +11,7 @@ and judges the implementation's observation with `Spec.C15`.
 -/
 namespace Pandora.Drv.C15
 open Pandora.Drv Pandora.Model.C15
-open Pandora.Spec.C15 (specSteps ringOK shotVerdict roundRobinOK OEv)
+open Pandora.Spec.C15 (specSteps ringOK shotVerdict roundRobinOK OEv ringPeriod feedCount)
 
 /-! ### escaping (mirror of harness/cmd/c15/common.go) -/
 
@@ -125,8 +125,12 @@ def handleProv (kv : List (String × String)) (impl : String) : String × String
   let reqNames := (splitNE (getS kv "rq") "|").map fun s => (unesc s).toList
   let scs := parseSc (getS kv "sc")
   let ring := decodeAmmo (lastWins reqNames) scs
+  -- provider options passes / limit (0 = unlimited)
+  let pl := (getS kv "pl").splitOn ","
+  let passes := ((pl.getD 0 "").toNat?).getD 0
+  let limit := ((pl.getD 1 "").toNat?).getD 0
   let mobs := outcomeStr ring fun ring =>
-    let deliv := (List.range n).filterMap fun k => deliver ring k
+    let deliv := feed ring passes limit n
     "ok ring=" ++ String.intercalate "|" (deliv.map fun a => esc (String.ofList a.name)) ++
       " sc=" ++ String.intercalate ";" (dedup (deliv.map descr))
   let verdict :=
@@ -140,7 +144,8 @@ def handleProv (kv : List (String × String)) (impl : String) : String × String
       let ikv := parseKV impl
       let deliv := (splitNE (getS ikv "ring") "|").map fun s => (unesc s).toList
       let descrs := splitNE (getS ikv "sc") ";"
-      if deliv.length != n && !scs.isEmpty then s!"fail:count:delivered {deliv.length} of {n}"
+      let want := feedCount (ringPeriod (scs.map (·.weight))) passes limit n
+      if deliv.length != want && !scs.isEmpty then s!"fail:count:delivered {deliv.length}, due {want} (taking at most {n}, passes={passes}, limit={limit})"
       else if !ringOK (scs.map (·.name)) (scs.map (·.weight)) deliv then "fail:weights:deliveries are not in proportion to the weights"
       else
         -- every delivered scenario has the step list its request list means
@@ -181,17 +186,85 @@ def parseReqs (s : String) : List CReq :=
       pre := pre.mergeSort (fun a b => strLe a.1 b.1),
       uri := splitNE (g 3) "|", body := splitNE (g 4) "|", post := splitNE (g 5) "|", xh := xh }
 
+/-- the `q<req>.<post|pre>.<var>` reference -/
+def qPath (code : String) : String :=
+  match ((code.drop 1).toString).splitOn "." with
+  | [x, k, y] => "request." ++ x ++ "." ++ (if k == "post" then "postprocessor" else "preprocessor") ++ "." ++ y
+  | _ => code
+
+/-- mirror of `nextSpellings` / `lastSpellings` of harness/cmd/c15/gun.go -/
+def nextSpellings : List String :=
+  [".source.users[next].id", "source.users[NEXT].id", "source.users[ next ].id", " source . users[next] . id ", "source.users[Next ].id"]
+def lastSpellings : List String := ["source.users[LAST].name", "source.users[ last ].name", ".source. users[Last] .name"]
+
+def fnArg (a : String) : String := if a.startsWith "q" && (a.splitOn ".").length == 3 then qPath a else a
+
+/-- mirror of `fnText`: the mapping value of a function code `F<kind><arg>~<arg>…` -/
+def fnText (code : String) : String :=
+  let args := (splitNE (code.drop 2).toString "~").map fnArg
+  match (code.toList.drop 1).head? with
+  | some 'S' => "randString(" ++ String.intercalate ", " args ++ ")"
+  | some 'W' => "randString( " ++ String.intercalate " ," args ++ " )"
+  | some 'Q' => "randString(" ++ String.intercalate "," args
+  | some 'I' => "randInt(" ++ String.intercalate "," args ++ ")"
+  | some 'U' => "uuid()"
+  | some 'X' => "nosuch(1)"
+  | some 'P' => " randString(2, z)"
+  | _ => code
+
 def prePath (code : String) : String :=
   if code == "n" then "source.users[next].id"
   else if code == "m" then "source.vars.users[next].id"
   else if code == "l" then "source.users[last].name"
   else if code == "r" then "source.users[rand].name"
+  else if code.startsWith "N" then (((code.drop 1).toString.toNat?).bind fun k => nextSpellings[k]?).getD code
+  else if code.startsWith "L" then (((code.drop 1).toString.toNat?).bind fun k => lastSpellings[k]?).getD code
+  else if code.startsWith "I" then " source . users[ " ++ (code.drop 1).toString ++ " ] . name"
+  else if code.startsWith "F" then fnText code
   else if code.startsWith "i" then "source.users[" ++ (code.drop 1).toString ++ "].name"
-  else if code.startsWith "q" then
-    match ((code.drop 1).toString).splitOn "." with
-    | [x, k, y] => "request." ++ x ++ "." ++ (if k == "post" then "postprocessor" else "preprocessor") ++ "." ++ y
-    | _ => code
+  else if code.startsWith "q" then qPath code
   else code
+
+/-! ### template functions of a preprocessor mapping (`templater.RandInt`, `RandString`, `UUID`) -/
+
+/-- `numbers.ParseInt`: a string in base 10 (sign allowed); a JSON number is a float64: unsupported type -/
+def goParseInt : Val → Option Int
+  | .str s => atoi s.toList
+  | _ => none
+
+/-- `str.FormatString` on the values the harness produces -/
+def fmtString : Val → String
+  | .str s => s
+  | .num i => toString i
+  | _ => ""
+
+/-- `randString(cnt, letters)`: over ONE letter the result is determined; otherwise only its length is (`rnd<n>`) -/
+def randStringM (cnt : Val) (letters : String) : Option String :=
+  match goParseInt cnt with
+  | none => none
+  | some n0 =>
+    let n := if n0 == 0 then 1 else n0
+    if n < 0 || n > 16777216 then none
+    else match letters.toList with
+      | c :: rest => if rest.all (· == c) then some (String.ofList (List.replicate n.toNat c)) else some s!"rnd{n}"
+      | [] => some s!"rnd{n}"
+
+/-- the function library as the target canonicalises it (`fnCanon` of the harness): random results are reduced to their shape -/
+def fnImpl (name : String) (args : List Val) : Option String :=
+  if name == "randString" then
+    match args with
+    | [] => some "rnd1"
+    | [c] => randStringM c ""
+    | [c, l] => randStringM c (fmtString l)
+    | _ => none
+  else if name == "randInt" then
+    match args with
+    | [] => some "int"
+    | [a] => (goParseInt a).map fun _ => "int"
+    | [a, b] => (goParseInt a).bind fun _ => (goParseInt b).map fun _ => "int"
+    | _ => none
+  else if name == "uuid" then some "uuid"
+  else none
 
 def valText : Val → String
   | .str s => s
@@ -245,7 +318,7 @@ def renderReq (reqs : List CReq) (rows : Nat) (d : ReqDef) (t : List (String × 
       let hdrs := r.pre.map fun (v, code) =>
         let val := match lookupPath t ["request", r.name, "preprocessor", v] with
           | some x => valText x | none => "<no value>"
-        if code == "n" || code == "m" then "N." ++ v ++ "=" ++ escv val
+        if code == "n" || code == "m" || code.startsWith "N" then "N." ++ v ++ "=" ++ escv val
         else "V." ++ v ++ "=" ++ escv (if code == "r" then "ok" else val)
       let hdrs := hdrs ++ xs
       let hs := if hdrs.isEmpty then "-" else String.intercalate "," (hdrs.mergeSort strLe)
@@ -277,7 +350,11 @@ def respOf (inst : Nat) (oracle : List String) (_reqMethod : String) (k : Nat) :
   let okJson : List (String × Val) := [("tok", .str ("T" ++ tok)), ("n", .num k)]
   let hdrs : List (String × String) :=
     [("X-Tok", "H" ++ tok), ("X-Kind", "Resp-" ++ code), ("Content-Type", "application/json")]
+  let bigBody := "{\"tok\":\"T" ++ tok ++ "\",\"n\":" ++ toString k ++ ",\"pad\":\"" ++ String.ofList (List.replicate 5000 'x') ++ "\"}"
   if code == "g" || code == "c" || code == "t" then none
+  else if code == "r" then some { status := 302, json := some okJson, hdrs := hdrs ++ [("Location", "/moved")], body := okBody }
+  else if code == "n" then some { status := 204, json := none, hdrs, body := "" }
+  else if code == "L" then some { status := 200, json := some okJson, hdrs, body := bigBody }
   else if code == "b" then some { status := 200, json := none, hdrs, body := "{\"tok\":" }
   else if code == "e" then some { status := 200, json := some [], hdrs, body := "{}" }
   else if code.startsWith "s" then
@@ -367,6 +444,7 @@ def world (reqs : List CReq) (rows inst : Nat) (oracle : List String) : World St
     | some l => respOf inst oracle (methodOfLine l) (hist.length - 1)
   post := fun id r => match (postTable reqs)[id]? with | some p => postOf p r | none => some []
   code := (·.status)
+  fn := fnImpl
 
 /-- iterator held by the (shared) preprocessor object of request `name`: the one of the LAST scenario that
 references it (`InitIterator` overwrites) -/
